@@ -18,7 +18,8 @@ EXPLANATION = (
     "literally an input symbol gets a fresh qubit and a cx from the input's qubit, never the input's own qubit; "
     "(X-FAMILY) the classical synthesis emits only x/cx/ccx/mcx, so every gate on the output qubit is a toggle; "
     "(DP-WIRES) the destination is removed from the control list before mcx, so no toggle of the output is conditioned "
-    "on the output; (TS-DEST) results are accumulated into the destination, never written over it.  It does NOT decide "
+    "on the output; (TS-DEST) results are accumulated into the destination, never written over it, and the "
+    "destination is never re-bound to anything but the caller's qubit or a fresh ancilla.  It does NOT decide "
     "the behaviour for y = 1, cleanliness of scratch (C03) or correctness of f (C02)."
 )
 NOT_DECIDED = "the behaviour for an output qubit initially 1; scratch cleanliness; correctness of f"
